@@ -1023,6 +1023,48 @@ func ruleForwardAll(c *Ctx, p *core.Program, rule string) {
 				continue
 			}
 			k := 0
+			// the capability test may live in a per-element helper (prepareElem(v)): the element without the
+			// capability makes the helper return nil, and the loop goes on because the error is nil
+			for _, call := range core.Calls(fn) {
+				g := core.StaticFn(call)
+				if g == nil || g.Blocks == nil || !core.InLoop(call.(ssa.Instruction)) || pkgOf(g) == nil || pkgOf(g).Path() != core.PkgProto {
+					continue
+				}
+				for _, gb := range g.Blocks {
+					gi, ok := gb.Instrs[len(gb.Instrs)-1].(*ssa.If)
+					if !ok {
+						continue
+					}
+					ex, ok := gi.Cond.(*ssa.Extract)
+					if !ok || ex.Index != 1 {
+						continue
+					}
+					if ta, ok := ex.Tuple.(*ssa.TypeAssert); !ok || !ta.CommaOk {
+						continue
+					}
+					n++
+					k++
+					key := sprintf("%s.%s/test#%d", ct.Obj().Name(), mn, k)
+					// on the failing edge the helper returns nil (or nothing)
+					fails := core.ReachAvoiding(core.Point{B: gb.Succs[1], I: -1}, func(x ssa.Instruction) bool {
+						r, isRet := x.(*ssa.Return)
+						if !isRet {
+							return false
+						}
+						for _, rv := range r.Results {
+							if isErrorTyped(rv) && !core.IsNilConst(rv) {
+								return true
+							}
+						}
+						return false
+					}, nil, nil)
+					if len(fails) > 0 {
+						c.R.Bad(rule, key, cfg, p.Pos(gi.Cond.Pos()), "the per-element helper reports an error for an element without the capability: the loop stops there")
+					} else {
+						c.R.Ok(rule, key, cfg, p.Pos(gi.Cond.Pos()), "per-element helper: an element without the capability yields nil, the loop goes on")
+					}
+				}
+			}
 			for _, b := range fn.Blocks {
 				ifi, ok := b.Instrs[len(b.Instrs)-1].(*ssa.If)
 				if !ok || !core.InLoop(ifi) {
